@@ -39,6 +39,7 @@ type Call struct {
 	Syns       []vnet.Ev
 	Reach      []vnet.Ev
 	Reads      []vnet.Ev // delivered to the library
+	Arrived    []vnet.Ev // reached the queue of one of the call's sockets
 	ReadFails  []vnet.Ev
 	KFails     []vnet.Ev // bind-fail, dial-fail, write-fail, set-deadline-fail
 	Closes     []vnet.Ev
@@ -120,6 +121,8 @@ func Analyse(sc *engine.Scenario, res *engine.Result) *Analysis {
 			c.Reach = append(c.Reach, e)
 		case "read":
 			c.Reads = append(c.Reads, e)
+		case "udp-arrive", "tcp-arrive":
+			c.Arrived = append(c.Arrived, e)
 		case "read-fail":
 			c.ReadFails = append(c.ReadFails, e)
 		case "bind-fail", "dial-fail", "write-fail", "set-deadline-fail":
